@@ -17,6 +17,8 @@ pub enum Op {
     /// iterate to exhaustion under the mask that is already set (the full mask of a fresh
     /// generator) without calling set_iterator_mask first
     Drain,
+    /// set the mask without iterating yet (removals may follow before the drain)
+    SetMask(u64),
 }
 impl Op {
     fn to_json(&self) -> Value {
@@ -25,6 +27,7 @@ impl Op {
             Op::RemoveMask(b) => json!(["remove_mask", format!("{:#018x}", b)]),
             Op::Phase(b) => json!(["set_iterator_mask+drain", format!("{:#018x}", b)]),
             Op::Drain => json!(["drain"]),
+            Op::SetMask(b) => json!(["set_iterator_mask", format!("{:#018x}", b)]),
         }
     }
     fn from_json(v: &Value) -> Option<Op> {
@@ -34,6 +37,7 @@ impl Op {
             "remove_move" => Op::RemoveMove(Mv::parse_uci(a.get(1)?.as_str()?)?),
             "remove_mask" => Op::RemoveMask(hx(a.get(1)?)?),
             "drain" => Op::Drain,
+            "set_iterator_mask" => Op::SetMask(hx(a.get(1)?)?),
             _ => Op::Phase(hx(a.get(1)?)?),
         })
     }
@@ -124,7 +128,21 @@ pub fn gen_program(p: &Pos, legal: &[Mv], t: &mut Tape) -> Vec<Op> {
     }
     let phases = t.below(4);
     for _ in 0..phases {
-        ops.push(Op::Phase(gen_mask(p, legal, t)));
+        if t.chance(1, 2) {
+            ops.push(Op::Phase(gen_mask(p, legal, t)));
+        } else {
+            // mask first, exclusions next, iteration last
+            ops.push(Op::SetMask(gen_mask(p, legal, t)));
+            for _ in 0..t.below(3) {
+                gen_removal(t, &mut ops);
+            }
+            ops.push(Op::Drain);
+            if t.chance(1, 8) {
+                // the exhausted phase stays exhausted, whatever is excluded afterwards
+                gen_removal(t, &mut ops);
+                ops.push(Op::Drain);
+            }
+        }
         if t.chance(1, 6) {
             gen_removal(t, &mut ops);
         }
@@ -185,6 +203,13 @@ pub fn check_program(ctx: &mut Ctx, start: &Pos, moves: &[Mv], ops: &[Op]) -> Re
                     removed.insert(*m);
                 }
                 ctx.class("remove:destination-mask");
+            }
+            Op::SetMask(m) => {
+                mg.set_iterator_mask(BitBoard::new(*m));
+                cur_mask = *m;
+                if matches!(ops.get(i + 1), Some(Op::RemoveMove(_)) | Some(Op::RemoveMask(_))) {
+                    ctx.class("program:removal-between-set_iterator_mask-and-iteration");
+                }
             }
             Op::Phase(_) | Op::Drain => {
                 let mask = &match op {
@@ -322,7 +347,7 @@ pub fn run(cfg: &Cfg) -> i32 {
     engine::finish(
         report,
         EvidenceSpec {
-            rule: "cases = (position, program): positions are curated / set-up starts advanced by 0-12 reference moves; a program is 0-3 removals (a legal move, an en-passant capture or promotion if available, all moves of one piece, all destinations of one piece as a mask, a single destination, a generated mask) followed either by a direct drain of the fresh generator (no set_iterator_mask call; 1 program in 4) or by 0-3 mask phases (enemy occupancy and its complement, one destination, rank, file, empty, full, half of the destination squares, random, promotion/en-passant squares; occasionally another removal between phases) and a final full-mask phase; each phase is drained with len() and size_hint() recorded before every next(). Oracle: a set model over the reference legal moves - every phase yields each not-yet-yielded, not-removed legal move landing on the mask exactly once (other promotions to a removed promotion's square may or may not appear), nothing else, and every recorded len()/size_hint() equals the number of moves actually yielded afterwards in that phase. evaluations = programs. Non-trivial = >= 2 non-empty phases, or removal of an en-passant capture, a promotion or a piece's only move; distinct = program fingerprints.".into(),
+            rule: "cases = (position, program): positions are curated / set-up starts advanced by 0-12 reference moves; a program is 0-3 removals (a legal move, an en-passant capture or promotion if available, all moves of one piece, all destinations of one piece as a mask, a single destination, a generated mask) followed either by a direct drain of the fresh generator (no set_iterator_mask call; 1 program in 4) or by 0-3 mask phases (half of them as set_iterator_mask, then 0-2 further removals, then the drain; enemy occupancy and its complement, one destination, rank, file, empty, full, half of the destination squares, random, promotion/en-passant squares; occasionally another removal between phases) and a final full-mask phase; each phase is drained with len() and size_hint() recorded before every next(). Oracle: a set model over the reference legal moves - every phase yields each not-yet-yielded, not-removed legal move landing on the mask exactly once (other promotions to a removed promotion's square may or may not appear), nothing else, and every recorded len()/size_hint() equals the number of moves actually yielded afterwards in that phase. evaluations = programs. Non-trivial = >= 2 non-empty phases, or removal of an en-passant capture, a promotion or a piece's only move; distinct = program fingerprints.".into(),
             assumptions: vec!["reference legal move set".into(), "masks are replaced only after exhaustion and removals are made only between phases, as the statement's quantifier says".into()],
             trusted_base: vec!["harness/src/refmodel.rs".into(), "proptest 1.11".into()],
             exhaustive: None,
